@@ -258,6 +258,12 @@ func stageFault(spec *stageSpec, id, name, phase, md, outFile string, result *st
 	if !ok {
 		kind, ok = spec.Faults[name+":"+phase]
 	}
+	if f := os.Getenv("VH_FAULTS"); !ok && f != "" {
+		// "<jobid or STAGE:phase>=<kind>"
+		if i := strings.LastIndexByte(f, '='); i > 0 && (f[:i] == id || f[:i] == name+":"+phase) {
+			kind, ok = f[i+1:], true
+		}
+	}
 	if !ok {
 		return
 	}
@@ -267,6 +273,10 @@ func stageFault(spec *stageSpec, id, name, phase, md, outFile string, result *st
 		if _, err := os.Stat(marker); err != nil {
 			return
 		}
+	}
+	if os.Getenv("VH_FAULT_ONCE") == "1" {
+		// a transient fault: it fires once
+		os.Remove(os.Getenv("VH_FAULT_MARKER"))
 	}
 	logEvent("fault %s %s %s %s", id, name, phase, kind)
 	switch kind {
